@@ -20,6 +20,7 @@ from sim import core
 from sim import modelgen
 
 ENGINE = 'c07'
+FIXED_PLAN = True   # run index -> mode schedule; no runs beyond the plan
 SHRINK_BUDGET = (30, 420)
 PIPES = ['generalized', 'spring', 'positional']
 REAL_ENVS = [('inverted_pendulum', b) for b in PIPES] + \
